@@ -37,6 +37,12 @@ claim("C02", "model-based property testing of adversarial 2FA histories (rapid) 
       "(TOTP reference check on its stored secret; latest unconsumed code the outbox shows was sent to its registered number for this browser; one of its unused recovery codes).",
       TRUST + " Flows the statement does not list (remember re-auth, OAuth2, registration) are outside this monitor.")
 
+claim("C03", "model-based property testing over module load orders and lock/confirm states (rapid) with the pre-request store as ground truth",
+      WM + "lock and/or confirm are inserted at a generated position of the load order (event-handler order follows it); accounts start locked/unlocked, confirmed/unconfirmed; histories mix correct and "
+      "incorrect attempts on password, OTP, OAuth2, recover-login and both 2FA validate steps with manual lock/unlock, re-started confirmation and lock expiry. Oracle: a login flow that ends with user U in the "
+      "session implies U was not locked / was confirmed in storage before the request; a probe behind lock.Middleware / confirm.Middleware ran only for an unlocked / confirmed session user.",
+      TRUST)
+
 NOT_YET = "check not built yet in this round (claimed in DESIGN.md; will be claimed once its check is committed)"
 
 def main():
